@@ -568,6 +568,8 @@ class MetricTranslator:
                 return (args[0][0], sp.log(args[0][1]))
             if f in ("np.exp", "math.exp") and len(args) == 1:
                 return (args[0][0], sp.exp(args[0][1]))
+            if f in ("np.float64", "numpy.float64", "float", "np.double") and len(args) == 1 and args[0][0] in ("scalar", "vec"):
+                return args[0]  # a cast to the working precision (float64) is the value
             if f in ("np.sqrt", "math.sqrt") and len(args) == 1:
                 obl.append(Obligation("sqrt", args[0][1], unparse(node.args[0]), line))
                 return (args[0][0], sp.sqrt(args[0][1]))
